@@ -26,6 +26,6 @@ j = s.index("\n\n", i)
 s = s[:i] + "\n".join(rows) + s[j:]
 s = re.sub(r"\n\d+ property-breaking changes were written by fresh sub-agents", "\n%d property-breaking changes were written by fresh sub-agents" % n, s)
 s = re.sub(r"\n\d+ of the \d+ were not caught", "\n%d of the %d were not caught" % (missed, n), s)
-s = re.sub(r"All \d+ are now reported by", "All %d are now reported by" % n, s)
+s = re.sub(r"All \d+ are now reported by", "All %d are now reported by" % n, s)  # (no-op once the sentence names exceptions)
 open(p, "w").write(s)
 print("section 13: %d seeds, %d first-attempt misses" % (n, missed))
